@@ -23,3 +23,48 @@ void harness(void) {
 	if (res == KSI_INVALID_FORMAT && tlv->datap_len == 9) REACH("rejected 9 octets");
 }
 #endif
+
+#if defined(H_utf8) || defined(H_utf8nz)
+/* bounded: payload length <= UTF8_MAXLEN octets, every octet symbolic; reference = spec/utf8.h automaton */
+#include "spec/utf8.h"
+#ifndef UTF8_MAXLEN
+#define UTF8_MAXLEN 12
+#endif
+void harness(void) {
+	struct KSI_TLV_st tlv;
+	static char ctx_mem[8]; KSI_CTX *ctx = (KSI_CTX *)ctx_mem;   /* opaque, never dereferenced (error/log stubs) */
+	unsigned char buf[UTF8_MAXLEN];
+	static KSI_Utf8String sentinel_obj; KSI_Utf8String *sentinel = &sentinel_obj;
+	KSI_Utf8String *out = sentinel;
+	size_t len = nondet_size(), w = nondet_size(), k;
+	int res, wf, empty;
+	__CPROVER_assume(len <= UTF8_MAXLEN);          /* the stated bound of this job */
+	for (k = 0; k < UTF8_MAXLEN; k++) buf[k] = nondet_uchar();
+	tlv.ctx = ctx; tlv.datap = buf; tlv.datap_len = len;
+	tlv.raw_res = nondet_bool() ? KSI_OK : KSI_INVALID_ARGUMENT;
+	wf = spec_utf8_wellformed(buf, len);
+	empty = (len == 1);
+#ifdef H_utf8
+	res = KSI_Utf8String_fromTlv(&tlv, &out);
+	empty = 0;
+#else
+	res = KSI_Utf8StringNZ_fromTlv(&tlv, &out);
+#endif
+	/* accepted <=> payload obtainable and well formed (and, for the NZ type, not the empty string); allocation may fail */
+	__CPROVER_assert(IMPLIES(res == KSI_OK, tlv.raw_res == KSI_OK && wf && !empty), "utf8: accepted => well-formed payload");
+	__CPROVER_assert(IMPLIES(tlv.raw_res == KSI_OK && wf && !empty, res == KSI_OK || res == KSI_OUT_OF_MEMORY), "utf8: well-formed payload => accepted (or out of memory)");
+	__CPROVER_assert(IMPLIES(tlv.raw_res == KSI_OK && !(wf && !empty), res == KSI_INVALID_FORMAT || res == KSI_BUFFER_OVERFLOW || res == KSI_OUT_OF_MEMORY), "utf8: malformed payload => rejected (format error; the object is allocated before the checks, so out-of-memory is possible too)");
+	__CPROVER_assert(IMPLIES(tlv.raw_res != KSI_OK, res == tlv.raw_res), "utf8: TLV error propagated");
+	__CPROVER_assert(IMPLIES(res != KSI_OK, out == sentinel), "utf8: output untouched on rejection");
+	if (res == KSI_OK) {
+		__CPROVER_assert(out != sentinel && out != NULL && out->len == len && out->ref == 1 && out->ctx == ctx, "utf8: object fields");
+		__CPROVER_assert(out->value != (char *)buf, "utf8: value is a private copy");
+		if (w < len) __CPROVER_assert((unsigned char)out->value[w] == buf[w], "utf8: value equals the payload (witness index)");
+		REACH("accepted");
+		if (len == UTF8_MAXLEN && buf[0] >= 0xf0 && buf[4] >= 0xe0 && buf[7] >= 0xc0) REACH("accepted multi-octet characters at the bound");
+	}
+	if (res == KSI_INVALID_FORMAT) REACH("rejected: format");
+	if (res == KSI_BUFFER_OVERFLOW) REACH("rejected: truncated character");
+	if (res != KSI_OK && tlv.raw_res == KSI_OK && len == 0) REACH("rejected: empty payload");
+}
+#endif
